@@ -207,7 +207,8 @@ What is proved below (`rs_corrects_partial_*`):
                                (minimum distance `r+1`, Vandermonde argument), hence
      `rs_unique_nearest`     — the code word within distance `⌊r/2⌋` of a received word is unique, so
                                the word the property demands is the only admissible answer;
- (3) `rs_corrects_single`    — the case `|E| = 1` of `rs_corrects` end to end through the model decoder
+ (3) `rs_corrects_partial`   — `rs_corrects` itself with `weight e ≤ 1` in place of `2 * weight e ≤ r`; its core is
+     `rs_corrects_single`    — the case `|E| = 1` of `rs_corrects` end to end through the model decoder
                                (syndromes, Euclid, locator shortcut, Forney with the generator-base
                                correction, correction loop): every field, every length `n ≤ size-1`,
                                every `r ≥ 2`, every position, every non-zero magnitude;
@@ -294,6 +295,19 @@ theorem rs_decode_encode_single (F : GF) (h : FieldOK F) (hb : F.base ≤ 1) (da
   have hrb : r + F.base ≤ F.size := by omega
   obtain ⟨w, h1, h2, h3, h4⟩ := rs_encode_zero_syndromes F h data r hk (by omega) hd hrb
   exact ⟨w, h2, h1, rs_corrects_single F h hb w r j e hr hrb (by omega) h3 h4 (by omega) he0 he⟩
+
+/-- `rs_corrects` with the exact extra hypothesis under which it is proved: at most ONE corrupted position
+    (`weight e ≤ 1` instead of `2 * weight e ≤ r`) and `r ≥ 2`.  Everything else is the full statement:
+    any code word `c` (zero syndromes) of length `n ≤ size-1` over any `FieldOK` field with generator base
+    0 or 1, any error word `e` of that length. -/
+theorem rs_corrects_partial (F : GF) (h : FieldOK F) (hb : F.base ≤ 1) (c e : List Nat) (r : Nat)
+    (hlen : e.length = c.length) (hn : c.length ≤ F.size - 1) (hc : InField F c) (he : InField F e)
+    (hz : ZeroSyndromes F c r) (hne : c ≠ []) (hr : 2 ≤ r) (hrb : r + F.base ≤ F.size)
+    (hwt : weight e ≤ 1) :
+    decode F (List.zipWith (· ^^^ ·) c e) r = .ok c := by
+  rcases zipWith_xor_weight_le_one c e hlen hwt with h0 | ⟨j, hj, m, hm0, hmem, h1⟩
+  · rw [h0]; exact rs_decode_clean F h c r hne hc hrb hz
+  · rw [h1]; exact rs_corrects_single F h hb c r j m hr hrb hn hc hz hj hm0 (he m hmem)
 
 /-! non-vacuity: the hypotheses of the theorems of this section are satisfiable — a concrete GF(16) code word
     (7 symbols, 4 parity symbols), its weight-2 neighbour, and instances with corrupted symbols -/
